@@ -271,7 +271,7 @@ def gate_cases(ck, arch, quick):
         faults.append(("trunc", rng.randrange(100, n) if n > 100 else n))
     for t in range(1, 10):
         faults.append(("trunc", n - t))
-    cap = 140 if quick else 1200
+    cap = 140 if quick else 500
     if len(faults) > cap:
         head, tail = faults[:1], faults[1:]
         rng.shuffle(tail)
@@ -411,6 +411,38 @@ def field_gate_ties(ck, orc, archives, quick):
                                 "fault %s: real load rc=%s, model=%s; archive=%s" % (faults[i], res[i][0], m[:60], a["data"].hex()[:3000]))
                     return
                 ck.cov["traces_validated_against_impl"] += 1
+        if a["fmt"] == "xz":
+            d = a["data"]
+            F = a["fields"]
+            faults = [("none",)]
+            for name in ("streamhdr", "blockhdr", "check", "index", "footer"):
+                off, ln = F[name]
+                for o in range(off, off + ln):
+                    for b in (range(8) if not quick else [ck.rng.randrange(8)]):
+                        faults.append(("flip", o, b))
+            res, crashes = orc.run_faults(a, faults)
+            lines, idx = [], []
+            for i, x in enumerate(faults):
+                if i not in res:
+                    continue
+                b = A.apply_fault(d, x)
+                sl = lambda nm: b[F[nm][0]:F[nm][0] + F[nm][1]]
+                ix = sl("index")
+                lines.append("xzg %s %s %08x %s %08x %s %s" % (sl("streamhdr").hex(), sl("blockhdr").hex(),
+                             struct.unpack("<I", sl("check"))[0], ix[:-4].hex(), struct.unpack("<I", ix[-4:])[0],
+                             sl("footer").hex(), a["payload"].hex() or "-"))
+                idx.append(i)
+            out = vlib.run_driver("drv_c09", "\n".join(lines) + "\n") if lines else []
+            for i, m in zip(idx, out):
+                n += 1
+                # the model has the framing of the intact stream (field positions fixed): real accepts => model accepts
+                if res[i][0] == 0 and not m.startswith("some"):
+                    ck.unproved("correspondence Gates.xzAccept vs xz_dec_stream.c",
+                                "fault %s: real load rc=%s, model=%s; archive=%s" % (faults[i], res[i][0], m[:60], d.hex()[:3000]))
+                    return
+                if res[i][0] != 0 and m.startswith("some") and faults[i][0] != "none":
+                    ck.bump("xz_real_stricter_than_field_model")
+                ck.cov["traces_validated_against_impl"] += 1
         if a["fmt"] == "bzip2" and len(a["payload"]) < 90000 and a["data"][4:10] == b"\x31\x41\x59\x26\x53\x59":
             d = a["data"]
             # single block: header CRC at 10..13 (byte aligned); stream CRC: last 32 bits before the padding, bit aligned
@@ -464,6 +496,7 @@ def replay_obj(a, fault, ref, got):
 def build_archives(ck, orc, quick):
     rng = ck.rng
     payloads = []
+    payloads.append(("synth-tiny", A.synth_mod(rng, tiny=True)))
     for i in range(2 if quick else 4):
         payloads.append(("synth%d" % i, A.synth_mod(rng, compressible=(i % 2 == 0))))
     cands = A.corpus_candidates(7000)
@@ -504,6 +537,7 @@ def oracle(ck, orc, archives, quick):
         for i in range(0, max(1, len(body)), step):
             jobs.append((a, [("none",)] + body[i:i + step]))
     ck.note("oracle_jobs", len(jobs))
+    st_key = {id(a): hashlib.md5(a["data"]).hexdigest()[:12] for a in archives}
     results = vlib.pmap(lambda j: orc.run_faults(j[0], j[1]), jobs)
     for (a, fl), (res, crashes) in zip(jobs, results):
         st = stats.setdefault(a["fmt"], {"archives": set(), "faults": 0, "rejected": 0, "identical": 0, "residual": 0,
@@ -532,7 +566,7 @@ def oracle(ck, orc, archives, quick):
             rc, md5 = res[i]
             st["faults"] += 1
             st[x[0]] += 1
-            ck.count((a["fmt"], a["variant"], hashlib.md5(a["data"]).hexdigest()[:10], x), nontrivial=True)
+            ck.count(hash((a["fmt"], a["variant"], st_key[id(a)], x)), nontrivial=True)
             if rc != 0:
                 st["rejected"] += 1
             elif md5 == want:
